@@ -210,7 +210,7 @@ theorem pollRecvResponse_ok (S : Src σ) (H : ReqRecv.Hdr) (st : St σ) :
       simp only
       cases H.head enc <;> first | (intro _; rfl) | exact connErr_ok _ _ _
     | _ => exact connErr_ok _ _ _
-  | none => exact connErr_ok _ _ _
+  | none => intro _; rfl
   | pending => intro _; rfl
   | _ => exact fsErr_ok { st with src := s' } _
 
@@ -410,9 +410,9 @@ theorem Req.step_live (cfg : Cfg) (cell : Option Nat) (r : Req) (c : Call) (h : 
       | .data => stepData cell r
       | .trailers => stepTrailers cfg cell r
       | .body fuel => stepBody cfg fuel cell r
-      | .sendHead fs => ((stepSend r (.headers fs)).1, cell, (stepSend r (.headers fs)).2)
-      | .sendData b => ((stepSend r (.data b)).1, cell, (stepSend r (.data b)).2)
-      | .sendTrailers fs => ((stepSend r (.headers fs)).1, cell, (stepSend r (.headers fs)).2)
+      | .sendHead fs => ((stepSend cfg r (.headers fs)).1, cell, (stepSend cfg r (.headers fs)).2)
+      | .sendData b => ((stepSend cfg r (.data b)).1, cell, (stepSend cfg r (.data b)).2)
+      | .sendTrailers fs => ((stepSend cfg r (.headers fs)).1, cell, (stepSend cfg r (.headers fs)).2)
       | .finish =>
         ({ r with snd := (r.snd.finish cfg.finSeesStop).1 }, cell, (r.snd.finish cfg.finSeesStop).2) := by
   have h' : ¬ (r.gone || !accepts cfg.role r c) = true := by rw [h]; simp
@@ -461,6 +461,7 @@ def fsOf : Peer → List H3.FS.Ev
   | .fin => [.fin]
   | .reset c => [.reset c]
   | .stop _ => []
+  | .grant _ => []
 
 def fsScript (ps : List Peer) : List H3.FS.Ev := ps.flatMap fsOf
 
@@ -686,6 +687,16 @@ theorem stepHead_finFirst (cfg : Cfg) (cell : Option Nat) (r : Req) (s' : FSt) (
   unfold stepHead
   simp [hs, H3.ReqRecv.pollHead, H3.ReqRecv.pollResolve, load, h, unload]
 
+/-- client head poll: the response stream ended before any HEADERS: the response is missing, an
+    error of this request; nothing is sent against the stream, the handle stays -/
+theorem stepHead_finFirst_client (cfg : Cfg) (cell : Option Nat) (r : Req) (s' : FSt) (hs : cfg.role = .client)
+    (h : fsSrc.pollNext r.rx.src = (.none, s')) :
+    stepHead cfg cell r =
+      ({ r with rx := unload { r.rx with src := s' }, gone := false }, cell,
+       .ans (.res (.errStream CODE_H3_MESSAGE_ERROR))) := by
+  unfold stepHead
+  simp [hs, H3.ReqRecv.pollHead, H3.ReqRecv.pollRecvResponse, load, h, unload]
+
 /-- head poll: HEADERS arrived, the section is over the limit — client -/
 theorem stepHead_tooBig_client (cfg : Cfg) (cell : Option Nat) (r : Req) (enc : Bytes) (s' : FSt)
     (hs : cfg.role = .client)
@@ -764,15 +775,20 @@ theorem stepTrailers_tooBig (cfg : Cfg) (cell : Option Nat) (r : Req) (enc : Byt
   simp [H3.ReqRecv.pollRecvTrailers, load, ht, H3.ReqRecv.trailersTail, he, H3.ReqRecv.decodeTrailers, Hdr.base,
     hm, HClass.base, unload]
 
-/-- a write on a stream the peer has stopped -/
-theorem write_stopped (s : Send) (f : H3.WriteBuf.SFrame) (c : Nat) (hs : s.stopped = some c) (hf : s.fin = false) :
-    s.write f = (s, .ans (.res (.errReset c))) := by
+/-- a write on a stream the peer has stopped: `RemoteTerminate`, nothing written, the buffer dropped -/
+theorem write_stopped (wc : Option Nat) (s : Send) (f : H3.WriteBuf.SFrame) (c : Nat) (hs : s.stopped = some c)
+    (hf : s.fin = false) :
+    s.write wc f = ({ s with writing := none }, .ans (.res (.errReset c))) := by
   simp [Send.write, hs, hf]
 
+/-- a write with no write in flight and no back-pressure -/
 theorem write_ok (s : Send) (f : H3.WriteBuf.SFrame) (w : H3.WriteBuf.WB) (hs : s.stopped = none) (hf : s.fin = false)
-    (hw : H3.WriteBuf.fromFrame f = some w) :
-    s.write f = ({ s with tx := s.tx ++ w.view }, .ok) := by
-  simp [Send.write, hs, hf, hw]
+    (hw0 : s.writing = none) (hw : H3.WriteBuf.fromFrame f = some w) :
+    s.write none f = ({ s with tx := s.tx ++ w.view }, .ok) := by
+  obtain ⟨tx, st, fin, g, wr⟩ := s
+  simp only at hs hf hw0
+  subst hs hf hw0
+  simp [Send.write, hw, Send.flush, Send.avail]
 
 /-- `recv_trailers` poll with the trailer block already in hand (remembered by `recv_data`), the
     stream not at its end: the look at the next frame meets the peer's RESET -/
